@@ -39,11 +39,6 @@ Proof.
 Qed.
 
 (* finite checks on a table, and what they give for every question *)
-Definition no_derived_tbl (mt : list (vkey * res (list version))) : bool :=
-  forallb (fun e => match snd e with
-                    | Ok vs => forallb (fun v => negb (attr_has K_DerivedFrom (v_attr v))) vs
-                    | _ => true end) mt.
-
 Lemma no_derived_ok : forall mt, no_derived_tbl mt = true -> forall d, get_bundled (tbl_lookup mt) d = None.
 Proof.
   intros mt H d. unfold get_bundled. destruct (negb (is_regular (r_type d))); auto.
@@ -53,22 +48,12 @@ Proof.
   rewrite andb_true_r in H. unfold attr_has in H. destruct (attr_get K_DerivedFrom (v_attr v)); [discriminate | reflexivity].
 Qed.
 
-Definition no_alias_tbl (rt : list (vkey * res (list req))) : bool :=
-  forallb (fun e => match snd e with
-                    | Ok ds => forallb (fun d => match r_alias d with [] => true | _ => false end) ds
-                    | _ => true end) rt.
-
 Lemma no_alias_ok : forall rt, no_alias_tbl rt = true ->
   forall k reqs d, tbl_lookup rt k = Ok reqs -> In d reqs -> r_alias d = [].
 Proof.
   intros rt H k reqs d E Hd. apply tbl_lookup_in in E. unfold no_alias_tbl in H. rewrite forallb_forall in H.
   specialize (H _ E). simpl in H. rewrite forallb_forall in H. specialize (H _ Hd). destruct (r_alias d); [reflexivity | discriminate].
 Qed.
-
-Definition names_tbl (mt : list (vkey * res (list version))) : bool :=
-  forallb (fun e => match snd e with
-                    | Ok vs => forallb (fun v => bytes_eqb (vk_name (v_key v)) (vk_name (fst e))) vs
-                    | _ => true end) mt.
 
 Lemma names_ok : forall mt, names_tbl mt = true ->
   forall k vs v, tbl_lookup mt k = Ok vs -> In v vs -> vk_name (v_key v) = vk_name k.
@@ -77,18 +62,11 @@ Proof.
   specialize (H _ E). simpl in H. rewrite forallb_forall in H. specialize (H _ Hv). apply bytes_eqb_eq. exact H.
 Qed.
 
-Fixpoint nodupb (l : list bytes) : bool :=
-  match l with [] => true | x :: l' => negb (memb x l') && nodupb l' end.
 Lemma nodupb_ok : forall l, nodupb l = true -> NoDup l.
 Proof.
   induction l as [|x l IH]; simpl; intro H; [constructor|]. apply andb_prop in H. destruct H as [H1 H2].
   constructor; auto. intro F. apply memb_In in F. rewrite F in H1. discriminate.
 Qed.
-
-Definition distinct_tbl (mt : list (vkey * res (list version))) (rt : list (vkey * res (list req))) : bool :=
-  forallb (fun e => match snd e with
-                    | Ok ds => nodupb (map r_name (regular_imports (tbl_lookup mt) ds))
-                    | _ => true end) rt.
 
 Lemma distinct_ok : forall mt rt, distinct_tbl mt rt = true ->
   forall k reqs, tbl_lookup rt k = Ok reqs -> NoDup (map r_name (regular_imports (tbl_lookup mt) reqs)).
